@@ -12,10 +12,13 @@ import subprocess
 ROTATE_PER_RUN = 6
 
 
+REPO = "/repo"
+
+
 def repo_rev():
     try:
-        r = subprocess.run(["git", "-C", "/repo", "rev-parse", "--short", "HEAD"], capture_output=True, text=True)
-        d = subprocess.run(["git", "-C", "/repo", "status", "--porcelain", "--untracked-files=no"],
+        r = subprocess.run(["git", "-C", REPO, "rev-parse", "--short", "HEAD"], capture_output=True, text=True)
+        d = subprocess.run(["git", "-C", REPO, "status", "--porcelain", "--untracked-files=no"],
                            capture_output=True, text=True)
         return r.stdout.strip() + ("+dirty" if d.stdout.strip() else "")
     except Exception:
@@ -52,6 +55,8 @@ PROPS["C03"] = {
     "instances": [
         I("c03::c03_resolve_sr", bounds="precedences symbolic; u8 storage"),
         I("c03::c03_resolve_sr_u32", bounds="precedences symbolic; u32 storage"),
+        I("c03::c03_resolve_sr_any", bounds="all 3 token and 3 production precedences, the conflicting token, "
+          "production and table cell symbolic"),
         I("c03::c03_encode_u8", bounds="all u8 indices"),
         I("c03::c03_encode_u16", bounds="all u16 indices"),
         I("c03::c03_encode_u32", bounds="all u32 indices"),
